@@ -124,6 +124,8 @@ def plan_C03(b, tier, seed):
         t += [B_curve(b, c, seed + k, 6000, "group", 2400) for c in BIG_CURVES for k in range(2)]
     return t
 
+# every configuration that ships GLV parameters (decomposition relation, endomorphism-accelerated multiplication on the subgroup)
+GLV_CURVES = ["bls12_381_g1", "c_bls12_381_g1", "c_bls12_381_g2", "c_bls12_377_g1", "c_bls12_377_g2", "c_bn254_g1", "c_bn254_g2", "c_bw6_761_g1", "c_bw6_761_g2", "c_pallas", "c_vesta"]
 def plan_C04(b, tier, seed):
     t = []
     cs = ["sw13_0_2", "sw13_1_0", "sw19_0_8", "sw31_1_29", "sw_f7_2_a0", "te13_1_7", "te29_1_2", "te13_2_4"] if tier == "quick" else SW_TOY + TE_TOY + SW_EXT
@@ -131,7 +133,9 @@ def plan_C04(b, tier, seed):
     if tier == "quick":
         t += [B_curve(b, c, seed, 150, "mul") for c in BIG_CURVES]
         t += [B_curve(b, c, seed, 80, "mul") for c in ("c_bn254_g1", "c_bls12_377_g1", "c_bls12_381_g1", "c_pallas", "c_vesta", "c_secp256k1", "c_bw6_761_g1", "c_ed_on_bls12_381_bandersnatch_te")]
+        t += [B_curve(b, c, seed, 140, "aux") for c in GLV_CURVES]
     else:
+        t += [B_curve(b, c, seed + k, 900, "aux", 3000) for c in GLV_CURVES for k in range(2)]
         t += [B_curve(b, c, seed + k, 1500, "mul", 3000) for c in BIG_CURVES for k in range(2)]
         t += [B_curve(b, c, seed, 400, "mul", 3000) for c in CURVE_CRATE_CURVES]
     return t
@@ -143,8 +147,11 @@ def plan_C12(b, tier, seed):
         t += [B_curve(b, c, seed, 250, "subgroup") for c in BIG_CURVES]
         t += [B_curve(b, c, seed, 120, "subgroup") for c in ("c_bls12_381_g1", "c_bls12_381_g2", "c_bls12_377_g1", "c_bls12_377_g2", "c_bn254_g2", "c_bw6_761_g1",
                                                              "c_ed_on_bls12_381_te", "c_ed_on_bls12_381_bandersnatch_te", "c_curve25519")]
+        # random sampling only yields subgroup points (rand events of the aux profile)
+        t += [B_curve(b, c, seed + 3, 100, "aux") for c in BIG_CURVES + ["c_bls12_377_g2", "c_bn254_g2", "c_ed_on_bls12_381_bandersnatch_te", "c_curve25519", "c_mnt6_298_g2"]]
     else:
         t += [B_curve(b, c, seed, 600, "subgroup", 3000) for c in CURVE_CRATE_CURVES]
+        t += [B_curve(b, c, seed + 3, 400, "aux", 3000) for c in BIG_CURVES + CURVE_CRATE_CURVES]
         t += [B_curve(b, c, seed + k, 2500, "subgroup", 3000) for c in BIG_CURVES for k in range(2)]
     return t
 
@@ -182,6 +189,8 @@ def plan_C11(b, tier, seed):
         t += [A_field(b, "f257", "unary", "f257h"), B_field_exh(b, "f12289"), B_field_exh(b, "f40961")]
         for c in ("bls12_381_fq", "bls12_381_fr", "bls12_381_fq2", "mnt6_753_fq3", "mnt4_753_fq", "secp256k1_fq", "z1a", "g64h", "m127h"):
             t.append(B_field(b, c, seed + 7, 1200))
+        # coordinate recovery helpers: both roots in lexicographic order, or none (recover / from_coord events of the aux profile)
+        t += [B_curve(b, c, seed + 7, 150, "aux") for c in BIG_CURVES]
     else:
         for c in ("f3", "f7", "f11", "f19", "f23", "f31", "f43", "f5", "f13", "f17", "f29", "f37", "f61", "f97", "f101", "f193", "f257", "f577",
                   "f3_2", "f7_2", "f11_2", "f19_2", "f5_2", "f13_2", "f17_2", "f7_3", "f5_4", "f13_3", "f19_3", "f13_4", "f7_6b", "f13_6b"):
@@ -189,6 +198,7 @@ def plan_C11(b, tier, seed):
         t += [B_field_exh(b, "f%d%s" % (p, h)) for p in (12289, 18433, 40961) for h in ("", "h")]
         for c in SHIPPED_PRIME + ["bls12_381_fq2", "mnt6_753_fq3"] + zoo_all():
             t.append(B_field(b, c, seed + 7, 8000, 1800))
+        t += [B_curve(b, c, seed + 7 + k, 1200, "aux", 3000) for c in BIG_CURVES for k in range(2)]
     return t
 
 def plan_C19(b, tier, seed):
@@ -338,15 +348,15 @@ RULES = {
  "C05": "A: MsmMachine over Z_r explored by TLC with the conservation invariant (result + buffered = everything added) on every state; EVERY history New(kind, cap); Add^n; Finalize with n <= LEN over bases {O, G, 2G, -G} (repeated and identity bases) x scalars {0, 1, r-1} x every capacity 0..LEN+1 x {Chunked, HashMap} is replayed on the real accumulators over toy curves; every pair of base/scalar vectors of length <= 3 (mismatched lengths included) and patterned vectors of length 31, 32, 33, 100 through msm (checked), msm_unchecked, msm_bigint, msm_chunks and - through the verification hook - both private bucket methods (the plain one is otherwise unreachable); B: full-size MSMs of 0..1025 terms on BLS12-381 G1/G2, secp256k1, MNT4-753 G1, BN384, Jubjub through all six entry points, validated by TLC as (sum k_i a_i) P",
  "C09": "A: for toy curves over fields with 4, 6, 7 and 8-bit moduli (so 4, 2, 1, 0 spare bits in the top byte; 2-bit and 1-bit flags that fit exactly or spill into an extra byte) and over F_{7^2}: every field element x every flag kind x every flag value: bytes and advertised size; EVERY byte string of the encoded length, one shorter and one longer (<= 2 bytes): decoding outcome, decoded value, flag and bytes consumed (TLC proves Decode.Encode = id and, for field elements, Encode.Decode = id on the specification); every curve point x compressed/uncompressed through affine and rescaled projective serializers and an exact-size buffer; B (Trace_Ser): full-size curves of every shape (0..7 spare bits, flags in a byte of their own for 256- and 384-bit moduli, base fields F_p, F_{p^2}, F_{p^3}, both models) incl. 14 curve crates and the ZCash format of curves/bls12_381 (ZcashCodec.tla): points of all classes (identity, generator multiples, random subgroup points, arbitrary-x points outside the subgroup, coordinates with structure: small, in a subfield, zero components - for a = 0 curves also a chosen y through a cube root) through four serializer entry points, field elements with every flag kind, and decoding of real encodings under 13 mutations (each flag bit, bit flips, truncation, extension, non-reduced coordinate, x+1, y+1, canonical / non-canonical infinity, random, all-ones) with and without validation",
  "C10": "A: EVERY byte string of length 0..size (<= 2 bytes) offered as compressed / uncompressed encoding with validation on and off, on toy curves with cofactor 1, 2, 4, 8, 18, 20, 36 (so most decodable points lie outside the subgroup) and x-coordinates without a root: error vs Ok, the decoded point, panics; with validation the returned point must be on the curve and in the prime-order subgroup; B (Trace_Ser): the same decision at full size on 20 shipped curves incl. the ZCash-format override of curves/bls12_381: crafted and mutated encodings (off-curve uncompressed coordinates, points outside the subgroup, non-canonical infinity, stray bits) with and without validation; a rejection must come with a witness that the bytes denote an invalid point",
- "C11": "A: EVERY element of toy fields (p = 3 mod 4: 7,11,31; two-adicity 2..8: 13,17,97,193,257; F_{p^2}, F_{p^3} with configured constants, F_{p^4}, F_{p^6} = 2 over 3) through sqrt / sqrt_in_place (relation: a root is returned exactly for squares and squares back), legendre (Euler criterion by norm descent, checked by TLC against the existence of a root); exhaustive traces over F_12289 and F_40961 (two-adicity 12, 13); B: shipped fields and the zoo (two-adicity up to 47; Goldilocks 32) with squares, non-squares and boundary values",
+ "C11": "A: EVERY element of toy fields (p = 3 mod 4: 7,11,31; two-adicity 2..8: 13,17,97,193,257; F_{p^2}, F_{p^3} with configured constants, F_{p^4}, F_{p^6} = 2 over 3) through sqrt / sqrt_in_place (relation: a root is returned exactly for squares and squares back), legendre (Euler criterion by norm descent, checked by TLC against the existence of a root); exhaustive traces over F_12289 and F_40961 (two-adicity 12, 13); B: shipped fields and the zoo (two-adicity up to 47; Goldilocks 32) with squares, non-squares and boundary values; curve coordinate recovery (get_ys_from_x_unchecked / get_xs_from_y_unchecked / get_point_from_*_unchecked) on shipped curves: both roots in lexicographic order or none, for random, small, structured and known-good coordinates",
  "C19": "A: eq / cmp / hash-consistency / is_zero / is_one on all pairs of toy field and tower elements, of boundary big integers, of curve points in ALL pairs of projective representatives (equality and hashing must not depend on the representative; affine vs projective), of polynomials in dense and sparse form; B: the same queries inside full-size traces where equal values arise along different operation sequences",
  "C08": "A: PolyMachine over toy prime fields: all ordered pairs of polynomials of degree < DEG x add/sub/mul/div/scaled add/eq in every dense/sparse mix and API variant (operators by value/reference, assign forms, naive and FFT products, the four divide_with_q_and_r mixes); every polynomial x scaling, evaluation, canonical-form conversions, vanishing-polynomial mul/div and evaluate_over_domain / interpolate over every small domain and coset (radix-2, mixed-radix, general), including polynomials longer than the domain; patterned polynomials of 15..130 coefficients (thorough 1030) x evaluation, linear operations, products and quotients with small and large operands. Results are compared as STORED coefficient vectors, so non-canonical results are visible. non-trivial = register changed or a non-zero value returned",
  "C07": "A: every constructible domain up to MAXN over fields with two-adicity 2..13 and small subgroups 3^k / 5^k: construction for every request 0..MAXN+1 and around the largest subgroup (all three kinds; minimal admissible size or none), generator order, element(i) for all i, elements(), FFT of every unit vector / all-ones / dense vector for EVERY input length 0..n, IFFT, vanishing polynomial and all Lagrange coefficients at every field element (p <= 31) or at in-domain and off-domain samples; four coset offsets; B: full-size domains (Trace_Poly): construction requests around every power of two up to 2^12 (thorough 2^13) and mixed sizes 2^a 3^b over BLS12-381 Fr, BN384 Fq (3^2), secp256k1 Fr (two-adicity 6, falls back to mixed radix), Fp128: FFT / IFFT / coset FFT of random and short vectors, evaluate_over_domain, interpolate, element tables, vanishing polynomials and all Lagrange coefficients (on and off the domain), decided by DftIdentity / LagrangeClosed at a random 250-bit point",
  "C03": "A: every transition of CurveMachine over toy curves (all ordered pairs of ALL points of the curve - prime-order subgroup for incomplete Edwards curves - x add/sub/eq/sum/batch-normalise; all points x double/negate/conversions), replayed through every projective rescaling of the operands (all of F_q^* for q = 13, 12 spread values otherwise) and every API variant (proj+proj, mixed, affine+affine, iterator sums). B: seeded programs on shipped curves with randomly rescaled registers; raw Jacobian / extended coordinates decoded by the specification. non-trivial = abstract register changed or a value returned",
- "C04": "A: every (k, P) with k in 0..2r+2 and P any point of a toy curve, through mul_bigint (with leading zero limbs), affine mul_bigint, bit streams (with/without leading zeros), scalar-field multiplication, w-NAF w=2..6 with fresh / precomputed / too-short tables, batch_mul for 1,2,31,32,33 scalars and three table sizings. B: boundary scalars (0,1,r-1,r,r+1,2^64-1,2^64N-1,random) on shipped curves, spec computes k.P by its own double-and-add",
- "C12": "A: all points of toy curves with cofactor 1,2,3,4,6,8 (so mostly outside the subgroup): subgroup test vs r.P = O, clear_cofactor vs h.P, mul_by_cofactor, mul_by_cofactor_inv on the subgroup. B: shipped curves with points from arbitrary coordinates; clear_cofactor vs the standardised effective cofactor (BLS12-381 G1: 1-x, G2: h2(3x^2-3)), endomorphism-based subgroup tests vs the definition",
+ "C04": "A: every (k, P) with k in 0..2r+2 and P any point of a toy curve, through mul_bigint (with leading zero limbs), affine mul_bigint, bit streams (with/without leading zeros), scalar-field multiplication, w-NAF w=2..6 with fresh / precomputed / too-short tables, batch_mul for 1,2,31,32,33 scalars and three table sizings. B: boundary scalars (0,1,r-1,r,r+1,2^64-1,2^64N-1,random) on shipped curves, spec computes k.P by its own double-and-add; on the 11 configurations that ship GLV parameters: scalar_decomposition as the relation k = +-k1 +- lambda k2 (mod r) with both halves short, glv_mul_projective / glv_mul_affine on subgroup points vs k.P",
+ "C12": "A: all points of toy curves with cofactor 1,2,3,4,6,8 (so mostly outside the subgroup): subgroup test vs r.P = O, clear_cofactor vs h.P, mul_by_cofactor, mul_by_cofactor_inv on the subgroup. B: shipped curves with points from arbitrary coordinates; clear_cofactor vs the standardised effective cofactor (BLS12-381 G1: 1-x, G2: h2(3x^2-3)), endomorphism-based subgroup tests vs the definition; UniformRand of affine and projective points only yields points with r.P = O",
  "C15": "A: BigIntMachine over the limb-boundary alphabet (NL<=2: all limb combinations from {0,1,2,2^31,2^63-1,2^63,2^64-2,2^64-1}; larger NL: one special limb, others 0 or all-ones): all ordered pairs x binary operations, every value x unary operations / shifts {0,1,63,64,65,127,128,64N-1,64N,64N+1,64N+64} / conversions / w-NAF for w in {0,1,2,3,4,5,8,16,20,64}; every transition replayed on ark_ff::BigInt<N> through every API variant. B: seeded boundary-biased programs for N in {1,2,3,4,6,12,13} validated by TLC (relaxed NAF as a relation). non-trivial = register changed or a non-zero/true flag or value returned",
- "C01": "A: every transition of FieldMachine over the listed toy prime fields (all operand tuples x all actions; both the derive-macro and the hand-written trait-default configuration) replayed through every API variant; B: seeded random+boundary programs on shipped fields and the moduli zoo validated by TLC over BigNat. non-trivial = result differs from the operands and from 0/1, counted per distinct (operands, event)",
+ "C01": "A: every transition of FieldMachine over the listed toy prime fields (all operand tuples x all actions; both the derive-macro and the hand-written trait-default configuration) replayed through every API variant; B: seeded random+boundary programs on shipped fields and the moduli zoo validated by TLC over BigNat, incl. decimal strings (FromStr / Display: numerals of integers below, at and far above p, negative, and the canonical numeral back). non-trivial = result differs from the operands and from 0/1, counted per distinct (operands, event)",
  "C02": "A: every transition of FieldMachine over toy towers (all elements, or the <=2-nonzero-coordinate sub-alphabet for towers with >3000 elements); B: seeded programs on the shipped BLS12-381 Fq2/Fq6/Fq12 and MNT6 Fq3 validated against schoolbook tower arithmetic over BigNat; Frobenius checked against x^(p^k); tower-specific operations (mode tower / trace events): norm, conjugation, multiplication by elements of every subfield level through every method the type offers (mul_by_fp, mul_by_fp2, mul_assign_by_fp2, mul_assign_by_basefield ...), the sparse multiplications mul_by_01 / mul_by_1 / mul_by_014 / mul_by_034 of both degree-6 towers and Fp12 against the product with the sparse element, and cyclotomic square / inverse / exponentiation on EVERY element of the cyclotomic subgroup of the small towers (projected elements for the large ones; exponents incl. 2^64-1, 2^64)",
 }
 
@@ -395,7 +405,7 @@ META = {
  "C10": {"text": "Deserialize is specified as a total function: error, or the point the bytes denote, and with validation only points of the prime-order subgroup (defined as r.P = O on the specification's own group law). TLC enumerates every byte string and predicts the outcome; panics or reading past the advertised size are violations.",
          "note": "Same toy scope as C09; cofactors up to 36."},
  "C11": {"text": "FieldMachine.Sqrt is a relation (some root iff square, root^2 = x, sqrt(0) = 0) and Legendre is Euler's criterion evaluated by norm descent; TLC proves on every toy field that both agree with the existence of a root, explores every element, and the harness replays sqrt, sqrt_in_place and legendre on the real algorithms (p = 3 mod 4 shortcut, Tonelli-Shanks for every two-adicity up to 13 exhaustively, quadratic-extension and cubic-extension algorithms). Full-size traces cover shipped fields.",
-         "note": "Curve coordinate-recovery helpers (get_ys_from_x / get_xs_from_y) are exercised through the C09/C10 decompression checks. Fields without a configured algorithm (Fp6 3-over-2, Fp12) are outside the property."},
+         "note": "Curve coordinate-recovery helpers are CurveMachine.Recover / FromCoord (relations) validated on traces of shipped curves. Fields without a configured algorithm (Fp6 3-over-2, Fp12) are outside the property."},
  "C19": {"text": "Eq / Ord / Hash / is_zero / is_one are Query actions of the Field, BigInt, Curve and Poly machines defined as equality / integer order / documented lexicographic order of ABSTRACT values; TLC checks the total-order behaviour implicitly by enumerating all pairs, and the harness evaluates ==, !=, cmp, partial_cmp, <, > and hashing on every pair of representatives.",
          "note": "Pairing outputs are covered by C06's equality-pattern check."},
  "C08": {"text": "PolyMachine defines every operator on canonical coefficient sequences over Z_p from first principles (schoolbook product, Euclidean division, Horner evaluation, DFT as a sum, interpolation as the inverse DFT sum); TLC checks ring laws, the division identity and interpolation-inverts-evaluation on the specification itself and emits every transition of the toy models, which the harness replays on DensePolynomial / SparsePolynomial / DenseOrSparsePolynomial / Evaluations in every representation mix.",
@@ -405,7 +415,7 @@ META = {
  "C03": {"text": "TLC enumerates every point of each toy curve by brute force, checks that the textbook affine law of the specification is a group law on it (closure, commutativity, associativity, identity, inverse, order h*r) and that the catalogue entry is right, and emits every transition; the real Projective/Affine code is run on every projective representative of the operands. Full-size: traces of shipped curves with raw coordinates validated by the specification's abstraction functions (on-curve and T*Z = X*Y invariants included).",
          "note": "Toy curves cover a=0 / a!=0, cofactors 1..8, 2-torsion, base fields F_p, F_{p^2}, F_{p^3}; complete and incomplete Edwards curves. The abstraction function in the harness uses the library's field inversion (checked by C01/C02)."},
  "C04": {"text": "CurveMachine.Mul is defined as k.P by double-and-add on the specification's own law; TLC explores all (k,P) for k up to 2r+2 on toy curves and the harness requires every multiplication path to produce that point. Full-size traces use boundary scalars including values at and above r and 2^(64N)-1.",
-         "note": "GLV: curves whose mul_projective is GLV-based are only required to be right on the prime-order subgroup; the behaviour outside is a recorded known finding. Toy GLV configurations: see DESIGN."},
+         "note": "GLV: curves whose mul_projective is GLV-based are only required to be right on the prime-order subgroup; the behaviour outside is a recorded known finding. There are no toy GLV configurations (GLV parameters need a curve with an efficient endomorphism and a lattice basis); the decomposition is validated at full size as a relation."},
  "C12": {"text": "Subgroup membership is defined as r.P = O and cofactor clearing as multiplication by one fixed integer; TLC explores all points of toy curves with cofactor > 1, and shipped curves are validated on points built from arbitrary coordinates.",
          "note": "Effective cofactors of optimised maps are constants of the check (RFC 9380 for BLS12-381); curve crates under /repo/curves are covered through vh-curves when built."},
  "C15": {"text": "BigIntMachine defines every BigInteger operation on arbitrary-precision naturals modulo 2^(64N) with exact carry/borrow flags, and the (w-)NAF as the unique recoding computed on unbounded integers (TLC checks that it satisfies the digit constraints and reconstructs, in every explored state). TLC explores the machine exhaustively over the limb-boundary alphabet and every transition is replayed on the real BigInt<N>; random+boundary traces are validated in the other direction.",
